@@ -149,6 +149,17 @@ __CPROVER_ensures (node->type == YAEP_ANODE ? *cost == -node->val.anode.cost - 1
 ;
 void h_prune_base (void) { node_t *n; int *c; HAVOC (parse_free); n = prune_to_minimal (n, c); if (n->type == YAEP_ANODE) VACUITY_CANARY_N ("revisited node"); else VACUITY_CANARY_N ("leaf"); }
 
+/* ---- P.step.base (DFCC): the two non-recursive cases of prune_to_minimal, full domain: a leaf costs 0; an abstract node
+   that was already processed (shared between alternatives) reports its recorded total and is left alone ---- */
+node_t *prune_base_c (node_t *node, int *cost)
+__CPROVER_requires (__CPROVER_is_fresh (node, sizeof (*node)) && __CPROVER_is_fresh (cost, sizeof (int)) && parse_free == NULL)
+__CPROVER_requires (node->type == YAEP_NIL || node->type == YAEP_ERROR || node->type == YAEP_TERM || (node->type == YAEP_ANODE && node->val.anode.cost < 0 && node->val.anode.cost > INT_MIN))   /* A-COST: totals stay below INT_MAX */
+__CPROVER_assigns (*cost)
+__CPROVER_ensures (__CPROVER_return_value == node)
+__CPROVER_ensures (node->type == YAEP_ANODE ? *cost == -node->val.anode.cost - 1 : *cost == 0)
+;
+void h_prune_base (void) { node_t *n; int *c; HAVOC (parse_free); n = prune_to_minimal (n, c); if (n->type == YAEP_ANODE) VACUITY_CANARY_N ("revisited node"); else VACUITY_CANARY_N ("leaf"); }
+
 /* ---- T.free: yaep_free_tree on small DAGs (bounded plain harness, faithful mode).  Every block reachable from the root is handed to
    parse_free exactly once, termcb is called exactly once per TERM node, nothing else is released. ---- */
 #ifndef VERIF_DFCC
